@@ -24,7 +24,7 @@ EOP
 }
 pairs | while read -r seed check; do
   git -C "$REPO" checkout -q -- . 
-  if ! git -C "$REPO" apply "seeded/$seed/patch.diff" 2>/dev/null; then echo "$seed $check PATCH-DOES-NOT-APPLY" >> "$OUT"; continue; fi
+  if ! git -C "$REPO" apply "$ROOT/seeded/$seed/patch.diff" 2>/dev/null; then echo "$seed $check PATCH-DOES-NOT-APPLY" >> "$OUT"; continue; fi
   VERIF_ROOT="$ROOT" VERIF_NO_EVIDENCE=1 VERIF_REPLAY_DIR="$ROOT/run/matrix-replays" timeout -s KILL 1200 ./check "$check" quick > "$ROOT/run-matrix.log" 2>&1; rc=$?
   classes=$(grep -c "violation class" "$ROOT/run-matrix.log")
   echo "$seed $check exit=$rc violation_classes=$classes $(grep -m1 'violation class' "$ROOT/run-matrix.log" | cut -c1-120)" >> "$OUT"
